@@ -48,6 +48,12 @@ func (e *Engine) noteHeapSort(key, as string) {
 	e.mu.Unlock()
 }
 
+func (e *Engine) heapSort(key string) string {
+	e.mu.Lock()
+	defer e.mu.Unlock()
+	return e.heapSorts[key]
+}
+
 func (e *Engine) typeTag(t types.Type) int {
 	k := typeKey(t)
 	e.mu.Lock()
@@ -156,6 +162,9 @@ func specSort(t string) string {
 		return SIface
 	case "slice":
 		return SSlice
+	}
+	if strings.HasPrefix(t, "*") {
+		return SInt // typed reference (Go pointer type named in the declaration)
 	}
 	panic("unknown spec type " + t)
 }
